@@ -69,7 +69,7 @@ pub fn run_property(ctx: &Ctx, rep: &mut Report) -> Result<(), String> {
 pub fn replay_case(case: &Value, ctx: &Ctx) -> Result<Vec<Violation>, String> {
     let _ = ctx;
     match case["property"].as_str().unwrap_or("") {
-        "C01" | "C02" | "C09" => Ok(props::c01::replay(case)),
+        "C01" | "C02" | "C09" => Ok(props::c01::replay(case, ctx)),
         "C03" | "C04" => Ok(props::c03::replay(case)),
         "C05" => Ok(props::c05::replay(case)),
         "C06" if case["kind"] == "project" => Ok(props::maps::replay(case, ctx, "C06")),
